@@ -53,6 +53,7 @@ def run(prog, chk):
     chk.rule(geomalg.check, prog, chk, "C08", floor=27)
     from props import strops
     chk.rule(strops.check_for, prog, chk, "C08")  # A14.str-ops: how this property's strings are cut up is a reviewed, frozen inventory
+    chk.rule(strops.blank_only_separators, prog, chk)  # a pair / list cut at blanks is cut at tabs and newlines too
 
 
 def _lit(body, t, i):
